@@ -162,3 +162,58 @@ func TestGvcReplayFKChange(t *testing.T) {
 		}
 	}
 }
+
+// Kind flags of a modified column, identity of the two columns in the change, and the empty
+// self-diff (columns with and without defaults), through the real SQLite differ.
+func TestGvcReplayColumnFlags(t *testing.T) {
+	mk := func(null bool, def string) *schema.Table {
+		tb := schema.NewTable("t").SetSchema(schema.New("main"))
+		c := schema.NewIntColumn("a", "integer")
+		c.Type.Null = null
+		if def != "" {
+			c.SetDefault(&schema.RawExpr{X: def})
+		}
+		return tb.AddColumns(c)
+	}
+	type v struct {
+		null bool
+		def  string
+	}
+	vs := []v{{false, ""}, {true, ""}, {false, "1"}, {true, "2"}, {false, "''"}}
+	for _, a := range vs {
+		for _, b := range vs {
+			from, to := mk(a.null, a.def), mk(b.null, b.def)
+			changes, err := sqlite.DefaultDiff.TableDiff(from, to)
+			if err != nil {
+				t.Fatalf("VIOLATED diff fails: %v", err)
+			}
+			var want schema.ChangeKind
+			if a.null != b.null {
+				want |= schema.ChangeNull
+			}
+			if a.def != b.def {
+				want |= schema.ChangeDefault
+			}
+			if want == schema.NoChange {
+				if len(changes) != 0 {
+					t.Fatalf("VIOLATED unchanged column reported: %+v -> %+v: %d changes", a, b, len(changes))
+				}
+				continue
+			}
+			if len(changes) != 1 {
+				t.Fatalf("VIOLATED one change per edited column: %+v -> %+v: %d changes", a, b, len(changes))
+			}
+			m, ok := changes[0].(*schema.ModifyColumn)
+			if !ok || m.From != from.Columns[0] || m.To != to.Columns[0] {
+				t.Fatalf("VIOLATED modification pairs the two columns: %+v -> %+v: %T", a, b, changes[0])
+			}
+			if m.Change != want {
+				t.Fatalf("VIOLATED column kind flags: %+v -> %+v: got %b, want %b", a, b, m.Change, want)
+			}
+		}
+		self := mk(a.null, a.def)
+		if changes, err := sqlite.DefaultDiff.TableDiff(self, self); err != nil || len(changes) != 0 {
+			t.Fatalf("VIOLATED self-diff is empty: %+v: %d changes, err %v", a, len(changes), err)
+		}
+	}
+}
